@@ -805,8 +805,13 @@ func (e *endpoint) watchPoll(ctx context.Context, pollingInterval uint32, nonRec
 		previous = snapshot
 
 		// If we've seen modifications, and we're not ignoring them, then strobe
-		// the poll events channel.
-		if (modified || outdated) && !ignoreModifications {
+		// the poll events channel. A snapshot from Scan that has become
+		// outdated is never ignored, not even on our first iteration, because
+		// that comparison isn't made against zero-valued variables: if Scan
+		// acquired the scan lock before our baseline scan, then whatever has
+		// changed on disk since then is unknown to the controller and nothing
+		// else will report it.
+		if (modified && !ignoreModifications) || outdated {
 			// Log the modifications.
 			logger.Debug("Modifications detected")
 
